@@ -21,6 +21,18 @@ theorem C10_datum_frame (o : DOps F R Err) (h : DHeap F R) (s d : Nat) (v : F ×
     (datumTransformM o h s d v).1 = h :=
   datumTransformM_heap o h s d v
 
+/-- **C10_datum_never_written** (fix 70faba2; true concurrency of transformers sharing an `*SR`): the body of
+`datumTransform` after its `defer` statement — the only stretch where the shared datums used to be written —
+leaves the heap exactly as found, for every heap, pointers, point and callees; the deferred function then
+assigns the saved values, which are the values the fields have (`restore_id`, `restoreSrc_id`).  So at every
+moment of a call the shared datums hold the values they had before it: a transformer running concurrently on
+the same spatial references reads the same records as one running alone.  (The model has no goroutines; this
+is the single-call invariant that the goroutine probe `cc` exercises on the real code.) -/
+theorem C10_datum_never_written (o : DOps F R Err) (h : DHeap F R) (s d : Nat) (v : F × F × F) :
+    (dtAfterDefer o h s d v).1 = h ∧
+    restore h s d (h s).a (h s).es (h d).a (h d).es = h ∧ restoreSrc h s (h s).a (h s).es = h :=
+  ⟨dtAfterDefer_heap o h s d v, restore_id h h s d (fun _ _ => rfl) rfl rfl, restoreSrc_id h s⟩
+
 /-- **C10_datum_pure**: the answer is a function of the two datum RECORDS and the point — it depends
 neither on the rest of the heap nor on whether the two pointers are the same object. -/
 theorem C10_datum_pure (o : DOps F R Err) (h : DHeap F R) (s d : Nat) (v : F × F × F) :
@@ -95,6 +107,16 @@ theorem snapshot_datum_not_restored :
     (((datumTransformSnapshot ops heap 0 1 (5, 6, 7)).1 1).a, ((datumTransformSnapshot ops heap 0 1 (5, 6, 7)).1 1).es) = (1, 2) ∧
     ((heap 1).a, (heap 1).es) = (30, 40) :=
   ⟨rfl, rfl, rfl⟩
+
+/-- before fix 70faba2 (`datumTransformShared`): DURING the call the shared destination datum carried the WGS84
+constants — what a goroutine running `compare_datums` on it at that moment read (observed on the real code as
+"gridshift not supported" for a pair with equal grids); after the call it was put back. -/
+theorem shared_window :
+    (((dtAfterDeferShared ops heap 0 1 (5, 6, 7)).1 1).a, ((dtAfterDeferShared ops heap 0 1 (5, 6, 7)).1 1).es) = (1, 2) ∧
+    ((heap 1).a, (heap 1).es) = (30, 40) ∧
+    (datumTransformShared ops heap 0 1 (5, 6, 7)).1 1 = heap 1 ∧
+    (dtAfterDefer ops heap 0 1 (5, 6, 7)).1 1 = heap 1 :=
+  ⟨rfl, rfl, rfl, rfl⟩
 
 /-- fixed code on the same input: same answer, datum as found (non-vacuity of the error path of the frame theorem) -/
 example :
